@@ -253,6 +253,8 @@ def c17(ctx):
         tool_job(ctx, 'shellparse', 'internal/shellparse', 'shellparse', [H(ctx, 'C17', 'shell_h.go')], unwind=40, deadline_s=600 if q else 2400,
                  only=['H_shell_dq1_2', 'H_shell_dq2_11', 'H_shell_sq', 'H_shell_unterminated', 'H_shell_plain'] if q else None),
         tool_job(ctx, 'safesplit', 'xtool/safesplit', 'safesplit', [H(ctx, 'C17', 'pkgconfig_h.go')], unwind=40, deadline_s=600 if q else 2400),
+        tool_job(ctx, 'env', 'internal/env', 'env', [H(ctx, 'C17', 'env_h.go')], unwind=40, deadline_s=600 if q else 2400),
+        tool_job(ctx, 'buildtags', 'internal/buildtags', 'buildtags', [H(ctx, 'C17', 'tags_h.go')], unwind=40, deadline_s=600 if q else 2400),
     ]
 
 
@@ -418,7 +420,8 @@ def c11(ctx):
 @prop('C06', level='other', title='maps behave as finite maps')
 def c06(ctx):
     q = ctx.quick
-    only = ['H_map_p0_ops2', 'H_map_p7_ops1', 'H_map_p8_ops1', 'H_map_clear_refill', 'H_map_clear_regrow', 'H_map_clear_rounds', 'H_map_chain2', 'H_map_nil'] if q else None
+    only = ['H_map_p0_ops2', 'H_map_p7_ops1', 'H_map_p8_ops1', 'H_map_clear_refill', 'H_map_clear_regrow', 'H_map_clear_rounds', 'H_map_chain2', 'H_map_nil',
+            'H_map_samesize_iter', 'H_map_samesize_iter_del', 'H_map_samesize_clear'] if q else None
     return [rt_job(ctx, 'map', [H(ctx, 'C06', 'map_h.go')], unwind=200, deadline_s=900 if q else 3000, only=only)]
 
 
